@@ -76,6 +76,8 @@ def main(argv):
     t0 = time.time()
     mod = importlib.import_module('vlib.props.' + prop)
     sub = [s for s in mod.SUBS if s.name == subname][0]
+    from . import determinism
+    determinism.pin()
     known_ids = core.load_known(prop)
     stats = Stats()
     curfile = outfile + '.cur'
@@ -121,8 +123,15 @@ def main(argv):
                 t()
             except Violation:
                 stats.violations.append(fail['last'])
-    except Exception as e:  # harness error (oracle crash, strategy error, flaky, ...)
-        result['harness_error'] = ''.join(traceback.format_exception(type(e), e, e.__traceback__))[-6000:]
+    except Exception as e:  # harness error (oracle crash, strategy error, ...)
+        if 'last' in fail and type(e).__name__ in ('FlakyFailure', 'Flaky', 'ExceptionGroup'):
+            # a violation was observed but did not reproduce on Hypothesis' re-execution (non-deterministic package
+            # code such as ARPACK start vectors): still a violation, the saved case may need several replays
+            v = dict(fail['last'])
+            v['msg'] += ' [observed once; not reproduced on immediate re-execution]'
+            stats.violations.append(v)
+        else:
+            result['harness_error'] = ''.join(traceback.format_exception(type(e), e, e.__traceback__))[-6000:]
 
     result.update({
         'evaluations': stats.evaluations,
